@@ -244,17 +244,38 @@ def Wf (s : Store) : Prop :=
 /-- spare capacity -/
 def room (s : Store) : Nat := s.buf.length - s.len
 
-theorem top_eq {s : Store} (h : s.Wf) : s.top = some { mem := s.buf.drop s.len, init := 0 } := by
-  simp [top, h.1]
+/-- a new outermost view can be made unless the caller's counter of a `raw` container is not 0 -/
+def canOpen (s : Store) : Prop := ¬(s.kind = .raw ∧ s.len ≠ 0)
+
+instance (s : Store) : Decidable s.canOpen := by unfold canOpen; infer_instance
+
+theorem top_eq {s : Store} (h : s.Wf) (hc : s.canOpen) :
+    s.top = some { mem := s.buf.drop s.len, init := 0 } := by
+  unfold top
+  rw [if_neg hc, if_pos h.1]
+
+theorem top_none {s : Store} (hc : ¬s.canOpen) : s.top = none := by
+  unfold top canOpen at *
+  rw [if_pos (by simpa using hc)]
+
+/-- whenever `top` yields a view it is the spare capacity with counter 0 -/
+theorem top_some {s : Store} {b : View} (hb : s.top = some b) :
+    b = { mem := s.buf.drop s.len, init := 0 } := by
+  unfold top at hb
+  split at hb
+  · cases hb
+  · split at hb
+    · cases hb; rfl
+    · cases hb
 
 theorem release_vec {s : Store} {v : View} (hs : s.Wf) (hv : v.Wf) (hf : v.mem.length ≤ s.room)
-    (hk : s.kind = .vec ∨ s.kind = .arr) :
+    (hk : s.kind = .vec ∨ s.kind = .arr ∨ s.kind = .raw) :
     (s.release v).contents = s.contents ++ v.done ∧ (s.release v).len = s.len + v.init ∧
     (s.release v).buf.length = s.buf.length ∧ (s.release v).kind = s.kind := by
   obtain ⟨h1, _⟩ := hs
   simp only [View.Wf, room] at *
   have hl : (splice s.buf s.len v.mem).length = s.buf.length := splice_length _ _ _ (by omega)
-  rcases hk with hk | hk <;> simp only [release, contents, hk, View.done, hl, and_true, true_and]
+  rcases hk with hk | hk | hk <;> simp only [release, contents, hk, View.done, hl, and_true, true_and]
   all_goals (unfold splice; list_ext)
 
 theorem release_slice {s : Store} {v : View} (hs : s.Wf) (hv : v.Wf) (hf : v.mem.length ≤ s.room)
@@ -388,8 +409,8 @@ theorem base_wf {s : Sess} (h : s.Wf) {b : View} (hb : s.base = some b) :
   | [] =>
     rw [hst] at hb
     simp only at hb
-    rw [Store.top_eq h.1] at hb
-    cases hb
+    have := Store.top_some hb
+    subst this
     exact ⟨⟨by simp [View.Wf], by simp [Store.room]⟩, rfl⟩
   | p :: rest =>
     rw [hst] at hb
@@ -474,6 +495,8 @@ theorem step_wf {s : Sess} (h : s.Wf) (op : Op) : (s.step op).1.Wf := by
       | none => exact unwind_wf h
   | openV caps =>
     dsimp only [step]
+    split
+    · exact h
     have := openView_wf h caps
     generalize s.openView caps = r at this ⊢
     obtain ⟨s', b⟩ := r
@@ -495,6 +518,8 @@ theorem step_wf {s : Sess} (h : s.Wf) (op : Op) : (s.step op).1.Wf := by
   | setr r => exact wf_congr h rfl rfl
   | read caps =>
     dsimp only [step]
+    split
+    · exact h
     have := openView_wf h caps
     generalize s.openView caps = r at this ⊢
     obtain ⟨s', b⟩ := r
